@@ -47,6 +47,16 @@ def _reader_ns(k: K.Kit, integ: str, frames: list) -> tuple[list, list, list]:
                 events.append((prefix, iri.attrs["value"] if isinstance(iri, ExtObj) else iri))
     sink = k.call(k.get(mod, "parse_jelly_to_graph"), k.input_stream(list(frames)))
     bound = [(x[1], x[2][1] if isinstance(x[2], tuple) else x[2]) for x in P.sink_items(k, integ, sink) if x[0] == "ns"]
+    # grouped parsing: the declarations of a frame are bound on that frame's sink; over all sinks, in order, they are
+    # the declarations of the stream
+    grouped: list = []
+    g = it.get_iter(k.call(k.get(mod, "parse_jelly_grouped"), k.input_stream(list(frames))))
+    while True:
+        ok, gs = it.next_value(g)
+        if not ok:
+            break
+        grouped += [(x[1], x[2][1] if isinstance(x[2], tuple) else x[2]) for x in P.sink_items(k, integ, gs) if x[0] == "ns"]
+    k.it.__dict__.setdefault("_c14_grouped", []).append(grouped)
     return events, bound, shapes
 
 
@@ -101,6 +111,7 @@ def check(chk: Check) -> None:
                         events, bound, shapes = _reader_ns(k, integ, on)
                         out["events"] = freeze(P.unsplit(it, events))
                         out["bound"] = freeze(P.unsplit(it, bound))
+                        out["grouped_bound"] = freeze(P.unsplit(it, it.__dict__.get("_c14_grouped", [[]])[-1]))
                         out["shapes"] = shapes
                         # fixpoint: write again from what was read
                         if via != "generator":
@@ -169,6 +180,13 @@ def check(chk: Check) -> None:
                         chk.ok(rp, inst + " | sink bindings", {"bound": len(o["bound"])})
                     elif all(s == "str" for s in o["shapes"]):
                         chk.fail(rp, inst + " | sink bindings", f"{base}.parse.parse_jelly_to_graph:bind", f"namespaces bound on the sink {o['bound']} differ from the source bindings {uniq}")
+                    if all(s == "str" for s in o["shapes"]):
+                        gb = tuple(o.get("grouped_bound", ()))
+                        # one sink per frame: a binding repeated in a later frame is bound again on that frame's sink
+                        if gb == tuple(rows) or tuple(dict.fromkeys(gb)) == uniq and len(gb) <= len(rows):
+                            chk.ok(rp, inst + " | grouped sink bindings", {"bound": len(gb)})
+                        else:
+                            chk.fail(rp, inst + " | grouped sink bindings", f"{base}.parse.parse_jelly_grouped:bind", f"namespaces bound on the sinks of grouped parsing {gb} differ from the declarations of the stream {tuple(rows)}")
                     if "again_rows" in o and all(s == "str" for s in o["shapes"]):
                         if tuple(o["again_rows"]) == uniq:
                             chk.ok(rf, inst, None)
